@@ -15,7 +15,7 @@ from vlib.harness import prop, sub, Violation
 
 prop("C07",
      rule="Exhaustive: every history of length 1..3 over the class's operation alphabet (set(attr, v) for each attribute the "
-          "class has among data [4 arrays: 2 lengths x real/complex], NFFT [None,'nextpow2',16,21,32], sampling [1,2.5], window, "
+          "class has among data [5 arrays: 2 lengths x real/complex + the real samples declared complex], NFFT [None,'nextpow2',16,21,32], sampling [1,2.5], window, "
           "lag, detrend, scale_by_freq, sides [4 values], ar_order, ma_order; call(); read psd; reassign(attr)) for all 12 "
           "classes x {real, complex} initial data (thorough: length 4 for pburg, Periodogram, pcorrelogram, parma).  Hypothesis: "
           "histories of up to 30 operations.  Non-trivial: the history contains an assignment that changes a value after a "
@@ -30,6 +30,8 @@ _rng = np.random.default_rng(20240707)
 POOL = {"r12": _rng.standard_normal(12) + np.cos(0.9 * np.arange(12)), "r15": _rng.standard_normal(15),
         "c12": _rng.standard_normal(12) + 1j * _rng.standard_normal(12),
         "c15": _rng.standard_normal(15) + 1j * _rng.standard_normal(15)}
+# the same samples as r12 declared complex: equal values, other datatype (one-sided -> two-sided)
+POOL["r12c"] = POOL["r12"].astype(complex)
 S = spectrum
 SPECS = {
     "Periodogram": dict(ctor=lambda d, a: S.Periodogram(d, sampling=a["sampling"], window=a["window"], NFFT=a["NFFT"], scale_by_freq=a["scale_by_freq"], detrend=a["detrend"]),
@@ -61,7 +63,7 @@ SPECS = {
     "MultiTapering": dict(ctor=lambda d, a: S.MultiTapering(d, NW=2, k=3, method="unity", NFFT=a["NFFT"], sampling=a["sampling"], scale_by_freq=a["scale_by_freq"]),
                           attrs=["data", "NFFT", "sampling", "scale_by_freq", "sides"], init=dict(NFFT=16, sampling=1., scale_by_freq=False)),
 }
-VALUES = {"data": ["r12", "r15", "c12", "c15"], "NFFT": [None, "nextpow2", 16, 21, 32], "sampling": [1., 2.5],
+VALUES = {"data": ["r12", "r15", "c12", "c15", "r12c"], "NFFT": [None, "nextpow2", 16, 21, 32], "sampling": [1., 2.5],
           "window": ["hann", "hamming", "rectangular"], "lag": [4, 5], "detrend": [None, "mean"],
           "scale_by_freq": [False, True], "sides": ["onesided", "twosided", "centerdc", "default"], "ma_order": [1, 2]}
 ARO = {"parma": [1, 2], "pma": [4, 5], "pmusic": [3, 4], "pev": [3, 4]}
@@ -166,6 +168,23 @@ def run_history(cls, d0, hist):
                         computed = True
                         continue
                     raise
+                # the assignment was accepted: the attribute must now hold the assigned value
+                # (the fresh object is built from read-back values, so a silently dropped
+                # assignment would otherwise be invisible to the differential)
+                cur = getattr(p, attr)
+                if attr == "data":
+                    okv = (np.asarray(cur).shape == val.shape and np.array_equal(cur, val)
+                           and np.iscomplexobj(cur) == np.iscomplexobj(val)
+                           and p.datatype == ("complex" if np.iscomplexobj(val) else "real") and p.N == len(val))
+                elif attr == "NFFT":
+                    okv = (cur == val) if isinstance(val, int) else isinstance(cur, int)
+                elif attr == "sides":
+                    okv = (cur == val) if val != "default" else cur in ("onesided", "twosided")
+                else:
+                    okv = cur == val
+                if not okv:
+                    raise HistFail("assignment-lost", i, op, "after assigning %s = %s the attribute reads %r (datatype %s)"
+                                   % (attr, v, cur if attr != "data" else np.asarray(cur).dtype, p.datatype))
                 if computed:
                     new = getattr(p, attr)
                     if attr == "data":
@@ -324,7 +343,7 @@ def c07_len4(ctx, case):
 @st.composite
 def long_case(draw):
     cls = draw(st.sampled_from(CLASSES))
-    d0 = draw(st.sampled_from(["r12", "c12", "r15", "c15"]))
+    d0 = draw(st.sampled_from(["r12", "c12", "r15", "c15", "r12c"]))
     n = len(OPS[cls])
     idx = draw(st.lists(st.integers(0, n - 1), min_size=4, max_size=30))
     return {"cls": cls, "d0": d0, "hist": [OPS[cls][i] for i in idx]}
